@@ -56,7 +56,9 @@ def m_nom_position(ex, n, a, f):
     chars = _src(ex, a[0]).chars
     rt = ret_ty(f)
     for i, c in enumerate(chars):
-        if ex.branch(ex.call_value(a[1], [c]), 'nom-position'):
+        # a symbolic character: the predicate (a pure closure over one char) is summarised into one term, see summarize_bool
+        v = ex.call_value(a[1], [c]) if isinstance(c, int) else ex.summarize_bool(lambda c=c: ex.call_value(a[1], [c]))
+        if ex.branch(v, 'nom-position'):
             return some(ex, rt, byte_off(chars, i))
     return none(ex, rt)
 
